@@ -146,7 +146,6 @@ class StreamingResponse(Response, abc.ABC, Generic[_ContentType]):
     ) -> None:
         super().__init__(status_code, headers)
         self.iterable = iterable
-        self._client_closed = False
 
     @abc.abstractmethod
     async def render_stream(self) -> AsyncGenerator[bytes, None]:
@@ -154,16 +153,27 @@ class StreamingResponse(Response, abc.ABC, Generic[_ContentType]):
         yield
 
     async def wait_close(self, receive: Receive) -> None:
-        while not self._client_closed:
-            message = await receive()
-            self._client_closed = message["type"] == "http.disconnect"
+        """
+        Return when the client that `receive` belongs to has gone away.
+        """
+        while (await receive())["type"] != "http.disconnect":
+            pass
 
     async def __call__(self, scope: Scope, receive: Receive, send: Send) -> None:
         await send_http_start(send, self.status_code, self.list_headers(as_bytes=True))
-        wait_close_future = asyncio.ensure_future(self.wait_close(receive))
+        # Whether the client of THIS call has left. It must not be kept on the
+        # response object: the object may answer other requests as well.
+        client_closed = False
+
+        async def watch_client() -> None:
+            nonlocal client_closed
+            await self.wait_close(receive)
+            client_closed = True
+
+        wait_close_future = asyncio.ensure_future(watch_client())
         generator = self.render_stream()
         try:
-            while not self._client_closed:
+            while not client_closed:
                 chunk = await generator.asend(None)
                 await send_http_body(send, chunk, more_body=True)
         except StopAsyncIteration:
